@@ -264,6 +264,9 @@ class ListV(V):
 
     def extend(self, seq):
         old, base, m = self.fn, self.n, seq
+        m0 = z3.simplify(seq.n)
+        if z3.is_int_value(m0) and m0.as_long() == 0:
+            return  # nothing to add (an empty source has no element shape)
         b0 = z3.simplify(base)
         if z3.is_int_value(b0) and b0.as_long() == 0:
             self.fn = lambda j: m.at(j)  # extending an empty list: the source decides the element shape
@@ -486,3 +489,36 @@ class TupListV(V):
 
     def __repr__(self):
         return f"TupListV(n={self.n})"
+
+
+# --------------------------------------------------------------------------- counting over tuple terms
+# clt(t, v, i) = the number of positions j < i with t[j] < v  (i >= 0): a recursive definition
+# (conservative: clt is a new symbol, the two axioms determine it on i >= 0)
+CLT = z3.Function("clt", TUP, z3.IntSort(), z3.IntSort(), z3.IntSort())
+
+
+def clt_axioms():
+    t = z3.Const("clt_t", TUP)
+    v, i = z3.Ints("clt_v clt_i")
+    a0 = z3.ForAll([t, v], CLT(t, v, 0) == 0, patterns=[CLT(t, v, 0)], qid="clt-zero")
+    a1 = z3.ForAll([t, v, i], z3.Implies(i >= 0, CLT(t, v, i + 1) == CLT(t, v, i) + z3.If(TEL(t, i) < v, 1, 0)), patterns=[CLT(t, v, i + 1)], qid="clt-step")
+    a2 = z3.ForAll([t, v, i], z3.Implies(i >= 0, z3.And(CLT(t, v, i) >= 0, CLT(t, v, i) <= i)), patterns=[CLT(t, v, i)], qid="clt-range")
+    return [a0, a1, a2]
+
+
+# --------------------------------------------------------------------------- extensionality of tuples
+# teq(a, b) is equality of tuple terms, written through a predicate so that the extensionality axiom
+# (tuples with the same length and the same entries are the same tuple - true in the intended model,
+# where IntTuple is the set of finite integer sequences) has a trigger exactly where a contract asks
+# for "the same tuple".
+TEQ = z3.Function("teq", TUP, TUP, z3.BoolSort())
+
+
+def teq_axioms():
+    a, b = z3.Const("teq_a", TUP), z3.Const("teq_b", TUP)
+    j = z3.Int("teq_j")
+    same = z3.ForAll([j], z3.Implies(z3.And(j >= 0, j < TLEN(a)), TEL(a, j) == TEL(b, j)), patterns=[TEL(a, j), TEL(b, j)], qid="teq-pointwise")
+    return [
+        z3.ForAll([a, b], TEQ(a, b) == (a == b), patterns=[TEQ(a, b)], qid="teq-def"),
+        z3.ForAll([a, b], z3.Implies(z3.And(TLEN(a) == TLEN(b), same), a == b), patterns=[TEQ(a, b)], qid="teq-ext"),
+    ]
